@@ -27,6 +27,7 @@ THEOREMS = [
     "file_order", "file_order_any_sort", "sort_perm", "sort_sorted", "sort_input_order_independent", "init_calls_order", "import_order",
     "read_link_iff", "linkname_parse", "splitExt_spec", "linkname_split", "linkname_split_plain", "linkname_dotted_package",
     "ismethod_value", "ismethod_pointer", "ismethod_func",
+    "linkname_errors_any_file", "linkname_errors_position_independent", "linkname_errors_overwriting_counterexample",
     "linkname_resolves", "linkset_add_no_conflict", "program_linkset_no_conflict", "linkset_conflict_first_wins",
     "old_scheme_exported_counterexample", "old_scheme_dotted_counterexample",
 ]
@@ -749,6 +750,95 @@ def build_error_tie(chk, scratch):
     chk.compare("build-errors", ops, impl, model, kind=lambda o, a: "build:" + a.split(":")[0] + ":" + a.split(":")[1])
 
 
+UNSUPPORTED = {   # class -> (declaration with directive, node kind for the model, file imports unsafe)
+    "var": ("//go:linkname v%(i)d %(m)s/lib.V\nvar v%(i)d int\n", "value", True),
+    "no-unsafe": ("//go:linkname f%(i)d %(m)s/lib.hidden\nfunc f%(i)d(x int) int\n", "func0", False),
+    "body": ("//go:linkname f%(i)d %(m)s/lib.pushed\nfunc f%(i)d(x int) int { return x }\n", "func1", True),
+    "type": ("//go:linkname T%(i)d %(m)s/lib.T\ntype T%(i)d int\n", "type", True),
+    "three-args": ("//go:linkname f%(i)d %(m)s/lib.hidden extra\nfunc f%(i)d(x int) int\n", "func0", True),
+    "not-found": ("//go:linkname g%(i)d %(m)s/lib.hidden\nfunc f%(i)d(x int) int { return x }\n", "missing", True),
+}
+VALID_OTHER = ("//go:linkname ok%(i)d %(m)s/lib.hidden\nfunc ok%(i)d(x int) int\n", "func0", True)
+POS_FILES = ["a_helper.go", "b.go", "main.go", "zz.go", "k_1.go", "M.go", "lib_use.go"]
+
+
+def unsupported_package(rng, mod, nfiles, offenders):
+    """A main package of `nfiles` files; offenders = {position in ascending name order: class}; the other files are clean
+    or carry a valid directive. -> (files, model tokens)"""
+    names = sorted(rng.sample(POS_FILES, nfiles))
+    mainfile = rng.randrange(nfiles)
+    files, toks = {}, []
+    for i, name in enumerate(names):
+        if i in offenders:
+            decl, node, uns = UNSUPPORTED[offenders[i]]
+        elif rng.random() < 0.5:
+            decl, node, uns = VALID_OTHER
+        else:
+            decl, node, uns = "func h%(i)d() int { return %(i)d }\n", "none", rng.random() < 0.3
+        decl = decl % {"i": i, "m": mod}
+        imps = []
+        if uns:
+            imps.append('\t_ "unsafe"\n')
+        body = decl
+        if i == mainfile:
+            imps.append('\t"%s/lib"\n' % mod)
+            body += "\nfunc main() { println(lib.Hidden(1)) }\n"
+        files[name] = "package main\n\n" + ("import (\n" + "".join(imps) + ")\n\n" if imps else "") + body
+        com = decl.split("\n")[0] if node != "none" else ""
+        toks.append("%s|%d|%s|%s" % (name, 1 if uns else 0, node, C.hexs(com.encode()) if com else "-"))
+    files["lib/lib.go"] = "package lib\n\nfunc Hidden(x int) int { return x + 1 }\n\nfunc hidden(x int) int { return x + 2 }\n\nvar V = 3\n"
+    files["stub.s"] = ""
+    return files, toks
+
+
+def unsupported_position_tie(chk, tier, scratch):
+    """Every unsupported use of the directive, in packages of 1..4 files, at EVERY position of the offending file in the file
+    order (the other files clean or with a valid directive), plus packages with two offending files: the build must be
+    rejected, with the error of the first offending file in processing order, whatever the position."""
+    gopath = os.path.join(scratch, "gopath")
+    rng = chk.rng
+    cases = []
+    for cls in UNSUPPORTED:
+        for nfiles in (1, 2, 3, 4):
+            positions = range(nfiles) if (tier == "thorough" or nfiles <= 3) else [rng.randrange(nfiles)]
+            for pos in positions:
+                cases.append((nfiles, {pos: cls}))
+    classes = list(UNSUPPORTED)
+    for _ in range(24 if tier == "thorough" else 6):
+        nfiles = rng.choice([2, 3, 4])
+        a, b = rng.sample(range(nfiles), 2)
+        cases.append((nfiles, {a: rng.choice(classes), b: rng.choice(classes)}))
+    for _ in range(6 if tier == "thorough" else 2):       # nothing wrong: must build
+        cases.append((rng.choice([2, 3, 4]), {}))
+    jobs, ops = [], []
+    for k, (nfiles, off) in enumerate(cases):
+        mod = "gvq%dpos%d" % (chk.seed, k)
+        files, toks = unsupported_package(rng, mod, nfiles, off)
+        jobs.append({"id": "pos%d" % k, "mod": mod, "files": files, "variants": ["plain"], "native": False, "timeout": 300})
+        ops.append("ln pkg %s %s" % (C.hexs(mod.encode()), " ".join(toks)))
+    res = run_prog_jobs(jobs, gopath, par=8)
+    impl = []
+    for r in res:
+        run = r["runs"]["plain"]
+        if run.get("class") == "compile-error":
+            err = run.get("err", "")
+            cls = [cl for pat, cl in ERR_CLASS if pat in err]
+            fm = re.search(r"([^/\s:]+\.go):\d+:\d+", err)
+            nm = re.search(r"\(and (\d+) more errors\)", err)
+            impl.append("%s@%s n=%d" % (cls[0] if cls else "err:other:" + err[:120], fm.group(1) if fm else "?", int(nm.group(1)) + 1 if nm else 1))
+        else:
+            obs = progs.observe_js(run)
+            impl.append("built" if obs[1] == "exit0" else "built:" + obs[1])
+    model = C.run_driver("C10", ops)
+
+    def kind(o, a):
+        n = len(o.split(" ")) - 3
+        return "unsupported-use:files=%d:%s" % (n, "built" if a == "built" else a.split("@")[0])
+    chk.compare("build-errors-by-position", ops, impl, model, kind=kind,
+                signature=lambda o, a, c: "C10 unsupported linkname use not rejected" if a.startswith("built") else "C10 linkname build error differs")
+    chk.extra["unsupported_use_packages"] = len(cases)
+
+
 def finding_exported(chk, scratch):
     """Regression witness of a repaired defect: an EXPORTED bodyless function declared through go:linkname was never
     assigned to `$pkg`, so a call from another package failed (`pa.Rev is not a function`), whereas Go calls the
@@ -992,6 +1082,7 @@ def run(tier, seed):
         graph_selftest(chk, tier)
         C.log("[C10] directive ties done %.0fs" % (time.time() - chk.t0))
         build_error_tie(chk, scratch)
+        unsupported_position_tie(chk, tier, scratch)
         finding_exported(chk, scratch)
         finding_dotted(chk, scratch)
         conflict_tie(chk, scratch)
